@@ -214,6 +214,31 @@ def run_c11(tier, seed):
             meta[ev["id"]] = (kind, text, detail)
     finally:
         os.chdir(cwd)
+    # the `fcp encode` command loads two files (the reflection schema and a schema to describe) with ONE logger: a faulty first file
+    # and a second file of the same name in another directory - the command must still print a diagnostic, not raise
+    try:
+        from click.testing import CliRunner
+        from fcp.__main__ import encode as encode_cmd
+        for k, fault in enumerate(FAULTS[:-1]):
+            for which in ("schema", "data"):
+                da, db = os.path.join(chk.workdir, "enc%d%s" % (k, which), "a"), os.path.join(chk.workdir, "enc%d%s" % (k, which), "b")
+                os.makedirs(da, exist_ok=True)
+                os.makedirs(db, exist_ok=True)
+                bad = 'version: "3"\n\n\n\n\n\n\n\n\n\n\n\nstruct Fcp { v @0: u8, }\n' + fault + "\n"
+                good = 'version: "3"\nstruct Fcp { v @0: u8, }\n'
+                with open(os.path.join(da, "vehicle.fcp"), "w") as f:
+                    f.write(bad if which == "schema" else good)
+                with open(os.path.join(db, "vehicle.fcp"), "w") as f:
+                    f.write(good if which == "schema" else bad)
+                res = CliRunner().invoke(encode_cmd, [os.path.join(da, "vehicle.fcp"), os.path.join(db, "vehicle.fcp"),
+                                                      os.path.join(chk.workdir, "enc.bin")])
+                chk.count(1, traces=1)
+                if res.exception is not None and not isinstance(res.exception, SystemExit):
+                    chk.violation("parser:exception-escaped:encode-command:%s" % type(res.exception).__name__,
+                                  {"input_kind": "encode command, faulty %s file, both files called vehicle.fcp" % which, "fault": fault,
+                                   "exception": "%s: %s" % (type(res.exception).__name__, str(res.exception)[:200])})
+    except ImportError:
+        pass
     cans = [{"id": "canary-raised", "outcome": "raised", "rendered": 0, "citations": [], "sources": []},
             {"id": "canary-cite", "outcome": "err", "rendered": 1, "citations": [{"file": "main.fcp", "line": 99}],
              "sources": [{"name": "main.fcp", "lines": 3}]},
